@@ -20,19 +20,37 @@
       grammar — flash image with descriptor, bare BIOS region, single volume — by edits and saves,
       fiano's reader takes the saved bytes back into a tree with the abstract volumes of the written tree;
     * end to end at the volume: `insert_saved`, `remove_saved`, `replace_pe32_saved`, `remove_pad_saved`;
+    * end to end at the tree (round 3, wp-c03c; image without descriptor, target = a top-level volume):
+      `edit_saved_tree`, `insert_end_to_end`, `insert_by_volume_end_to_end`, `remove_end_to_end`,
+      `replace_pe32_end_to_end` — the re-parsed saved image shows the
+      edited list at the target volume and, for every other volume (nested ones included), the list of
+      the input tree; `edit_saved_tree_nested` / `nested_edit_end_to_end`: the same when the target volume
+      is nested in a file of another volume (any depth / one level spelled out): the enclosing file keeps
+      GUID and type, every other file of the enclosing volume keeps GUID, type, attributes and body;
+      `edit_saved_flash`: the same for a flash image with descriptor and one BIOS region;
+      `saved_tree_reparsed`: any number of edits in any number of top-level volumes before the save;
    C  the bytes (follow-up wp-c03b)
     * `frame_bytes`, `frame_bytes_flash`: `asm (op t)` and `asm t` agree on every byte outside the
       volumes below which the edit worked, with explicit offsets (any tree, any hooks, any editor);
     * `frame_inside_volume`, `remove_pad_bytes`: inside the re-laid volume, the bytes up to the end of
-      the common file prefix, and every byte outside the replaced file's own range.
+      the common file prefix, and every byte outside the replaced file's own range;
+    * an inserted blob outside the grammar (round 3, wp-c03c): `blob_node` (what `NewFile` accepts and
+      the node it builds: the buffer is the blob's prefix), `inserted_bytes_verbatim` (the assembled
+      buffer of the inserted file appears byte for byte at the offset the alignment rule computes) —
+      with `frame_bytes*` and `frame_inside_volume` this is the frame for arbitrary accepted blobs.
   Forced hypotheses met on the way (reports/C03.md): an emptied volume is not re-assembled (F26,
-  `keep…`); a volume left with exactly 24 free bytes was not read back (repaired by 8039e86 — the
-  grammar of C01 still excludes it, hence `GoodFv`); a header-only file written at the very end of a
-  full volume is not seen by the reader (`GoodFv`); 2^30 or more files in one volume, 16 MiB and more
-  (`GoodFv`, `tidy`).
+  `keep…`); 2^30 or more files in one volume, 16 MiB and more (`GoodFv`, `tidy`).  Two former clauses
+  of `GoodFv` are gone (round 3, wp-c03c): "no volume left with exactly 24 free bytes" and "no
+  header-only file at the very end of a full volume" — both were reader defects found while proving
+  `reparse_abs`, repaired by 8039e86 / cce350a; the grammar of C01 no longer excludes them.
 -/
 import FianoModel.Uefi.ExactCor
 import FianoModel.Uefi.ExactReparse
+import FianoModel.Uefi.ExactE2E
+import FianoModel.Uefi.ExactE2ENest
+import FianoModel.Uefi.ExactE2EFlash
+import FianoModel.Uefi.ExactE2EPe32
+import FianoModel.Uefi.ExactE2EBlob
 import FianoModel.Uefi.ExactFrameFlash
 import FianoModel.Uefi.GuidLemmas
 import FianoModel.Uefi.EditTie
@@ -195,9 +213,11 @@ theorem reach_save (t t' : Tree) (st st' : St) (hr : Reach t) (hp : st.pol = 0xF
     files transparent — exactly the abstract file lists of the written tree.
     Hypotheses: `tidy` (input: sectioned files below 16 MiB, leaf files below 2^62 bytes, first block
     size of FFS volumes a power of two in [8, 2^31]); `keepTree` at each edit (no volume is emptied —
-    finding F26); `GoodTree` (written tree: every buffer below 16 MiB, fewer than 2^30 files per volume,
-    no volume left with exactly 24 free bytes, no header-only file at the very end of a full volume —
-    finding F52); erase polarity 1, no hooks (no compressed sections: the grammar of C01). -/
+    finding F26); `GoodTree` (written tree: every buffer below 16 MiB, fewer than 2^30 files per volume;
+    since round 3 no condition on the tail: a volume left with exactly 24 free bytes behind an unaligned
+    file end and a header-only file at the very end of a full volume — finding F52 — are read back by the
+    repaired reader and are inside the grammar of C01); erase polarity 1, no hooks (no compressed
+    sections: the grammar of C01). -/
 theorem reparse_abs (t t' : Tree) (st st' : St) (hr : Reach t) (hp : st.pol = 0xFF) (hf : st.ffs3 = false)
     (h : asmTreeWith Hooks.none t st = .ok (t', st')) (hg : GoodTree t') :
     ∃ i', Spec.WF i' ∧ t'.buf = Spec.ser i' ∧ parse Hooks.none t'.buf = .ok (Spec.tree i') ∧
@@ -252,6 +272,243 @@ theorem replace_pe32_saved (body : Bytes) (hb : body.length + 8 < 0xFFFFFFFF) (s
       (s.info.type ≠ secTypePE32 → s1' = s') ∧
       (s.info.type = secTypePE32 → ∃ hdr, s1'.buf = hdr ++ body ∧ (hdr.length = 4 ∨ hdr.length = 8) ∧ s1'.encap = []) :=
   pe32_saved_sections body hb ss ss1 ss' ss1' st st' st1' hc hpe hp hf ha ha1 hg hg1 k s hk
+
+/-! ## B2 — one statement per operation, at the tree (round 3, wp-c03c) -/
+
+/-- **one edit, one save, one re-parse** (image without flash descriptor; any editor that satisfies
+    `EditorOk`: Insert, Remove / remove_pad, ReplacePE32).  The region's elements are
+    `pre ++ volume v :: post`; the editor is quiet on the volumes of `pre` and `post`, which are stable
+    (`StableFv`: a save keeps their abstract lists — true of every volume of a parsed tidy tree,
+    `stable_treeBios`); it turns `v` into `v1`, whose files are stable (`StableFile` — parsed files
+    `stable_treeFiles`, pad files `stable_padFile`, leaf files `stable_leaf`).  Then the edit yields the
+    tree with `v1` in place of `v`, and if the save succeeds with a `GoodTree` result the saved bytes are
+    a well-formed image of the grammar, fiano's reader parses them, and the tree it reports shows the
+    lists of `pre` as in the input, then the file list of `v1` and the lists of the volumes nested in
+    its files, then the lists of `post` as in the input. -/
+theorem edit_saved_tree (E : Editor) (hE : EditorOk E) (b : BiosRegion) (hr : Reach (.bios b))
+    (hkeep : keepTree E (.bios b)) (pre post : List BiosElem) (v v1 : Fv)
+    (hdec : b.elems = pre ++ .fv v :: post)
+    (hq : ∀ u, BiosElem.fv u ∈ pre ++ post → quietFv E u = true ∧ StableFv u)
+    (hrw : rwFv E v = .ok v1) (hc1 : CanonFv v1) (hs : ∀ f ∈ v1.files, StableFile f)
+    (st st' : St) (t' : Tree) (hp : st.pol = 0xFF) (hf : st.ffs3 = false)
+    (ha : asmTreeWith Hooks.none (.bios { b with elems := pre ++ .fv v1 :: post }) st = .ok (t', st'))
+    (hg : GoodTree t') :
+    rwTree E (.bios b) = .ok (.bios { b with elems := pre ++ .fv v1 :: post }) ∧
+    ∃ i', Spec.WF i' ∧ t'.buf = Spec.ser i' ∧ parse Hooks.none t'.buf = .ok (Spec.tree i') ∧
+      avTree (Spec.tree i') = avElems pre ++ (absFiles v1.files :: avFiles v1.files) ++ avElems post :=
+  edit_saved_bios E hE b hr hkeep pre post v v1 hdec hq hrw hc1 hs st st' t' hp hf ha hg
+
+/-- **Insert, end to end at the tree** (file-matched; front / end / dxe / after / before / replace_ffs).
+    The selector's only match is the `k`-th file of the top-level volume `(i, buf, files)`; nothing
+    matches in the other top-level volumes.  `insertOp` yields the tree with the new file in that list,
+    and the saved, re-parsed image shows: the lists of `pre` as in the input; the old list with the new
+    file at the stated place — minus exactly the matched file for replace_ffs — (`insertSpec`), then
+    the lists of the volumes nested in that volume's files; the lists of `post` as in the input. -/
+theorem insert_end_to_end (p : Pred) (w : Where) (nf : File) (b : BiosRegion) (hr : Reach (.bios b))
+    (hkeep : keepTree (insertFileEditor p w nf) (.bios b)) (pre post : List BiosElem)
+    (i : FvInfo) (buf : Bytes) (files : List File) (k : Nat)
+    (hdec : b.elems = pre ++ .fv (.mk i buf files) :: post)
+    (hq : ∀ u, BiosElem.fv u ∈ pre ++ post → quietFv (insertFileEditor p w nf) u = true ∧ StableFv u)
+    (hfind : ∃ h, find p (.bios b) = [h] ∧ h.isFv = false)
+    (hk : hitIndex p files = some k) (hc : CanonFv (.mk i buf files)) (hsf : ∀ f ∈ files, StableFile f)
+    (hnc : CanonFile nf) (hns : StableFile nf)
+    (st st' : St) (t' : Tree) (hp : st.pol = 0xFF) (hf : st.ffs3 = false)
+    (ha : asmTreeWith Hooks.none
+      (.bios { b with elems := pre ++ .fv (.mk i buf (insertAt w nf files k)) :: post }) st = .ok (t', st'))
+    (hg : GoodTree t') :
+    insertOp p w nf (.bios b) =
+      .ok (.bios { b with elems := pre ++ .fv (.mk i buf (insertAt w nf files k)) :: post }) ∧
+    ∃ i', Spec.WF i' ∧ t'.buf = Spec.ser i' ∧ parse Hooks.none t'.buf = .ok (Spec.tree i') ∧
+      avTree (Spec.tree i') =
+        avElems pre ++ (insertSpec w nf files k :: avFiles (insertAt w nf files k)) ++ avElems post :=
+  insert_e2e_bios p w nf b hr hkeep pre post i buf files k hdec hq hfind hk hc hsf hnc hns st st' t' hp hf ha hg
+
+/-- **Insert by volume name, end to end at the tree** (`insert_front` / `insert_end` with a volume
+    selector whose only match is the top-level volume `(i, buf, files)`, which has files): `insertOp`
+    yields the tree with the new file in front of / behind the list, and the saved, re-parsed image shows
+    exactly that list, the lists nested in its files, and every other volume's list as in the input. -/
+theorem insert_by_volume_end_to_end (p : Pred) (front : Bool) (nf : File) (b : BiosRegion) (hr : Reach (.bios b))
+    (hsel : ∀ v, p.fv v = true → v.files ≠ [])
+    (hkeep : keepTree (insertFvEditor p (if front then .front else .end_) nf) (.bios b)) (pre post : List BiosElem)
+    (i : FvInfo) (buf : Bytes) (files : List File)
+    (hdec : b.elems = pre ++ .fv (.mk i buf files) :: post)
+    (hq : ∀ u, BiosElem.fv u ∈ pre ++ post →
+      quietFv (insertFvEditor p (if front then .front else .end_) nf) u = true ∧ StableFv u)
+    (hfind : ∃ h, find p (.bios b) = [h] ∧ h.isFv = true)
+    (hhit : p.fv (.mk i buf files) = true) (hc : CanonFv (.mk i buf files)) (hsf : ∀ f ∈ files, StableFile f)
+    (hnc : CanonFile nf) (hns : StableFile nf)
+    (st st' : St) (t' : Tree) (hp : st.pol = 0xFF) (hf : st.ffs3 = false)
+    (ha : asmTreeWith Hooks.none
+      (.bios { b with elems := pre ++ .fv (.mk i buf (if front then nf :: files else files ++ [nf])) :: post }) st =
+        .ok (t', st'))
+    (hg : GoodTree t') :
+    insertOp p (if front then .front else .end_) nf (.bios b) =
+      .ok (.bios { b with elems := pre ++ .fv (.mk i buf (if front then nf :: files else files ++ [nf])) :: post }) ∧
+    ∃ i', Spec.WF i' ∧ t'.buf = Spec.ser i' ∧ parse Hooks.none t'.buf = .ok (Spec.tree i') ∧
+      avTree (Spec.tree i') =
+        avElems pre ++
+          ((if front then absFiles [nf] ++ absFiles files else absFiles files ++ absFiles [nf]) ::
+            (if front then avFile nf ++ avFiles files else avFiles files ++ avFile nf)) ++
+          avElems post :=
+  insert_fv_e2e_bios p front nf b hr hsel hkeep pre post i buf files hdec hq hfind hhit hc hsf hnc hns st st' t' hp hf
+    ha hg
+
+/-- **Remove / remove_pad, end to end at the tree**.  The selector matches files of the top-level volume
+    `(i, buf, files)` only — nothing in the other top-level volumes, nothing below a file that stays —
+    and does not empty it (finding F26).  `removeOp` yields the tree with the rewritten list, and the
+    saved, re-parsed image shows: the lists of `pre` as in the input; the old list minus exactly the
+    matched files (a pad file left by remove_pad / for a PEIM is transparent), then the lists of the
+    volumes nested in the files that stay; the lists of `post` as in the input. -/
+theorem remove_end_to_end (p : Pred) (pad : Bool) (b : BiosRegion) (hr : Reach (.bios b))
+    (hkeep : keepTree (removeEditor p pad 0xFF) (.bios b)) (pre post : List BiosElem)
+    (i : FvInfo) (buf : Bytes) (files files1 : List File)
+    (hdec : b.elems = pre ++ .fv (.mk i buf files) :: post)
+    (hq : ∀ u, BiosElem.fv u ∈ pre ++ post → quietFv (removeEditor p pad 0xFF) u = true ∧ StableFv u)
+    (hc : CanonFv (.mk i buf files)) (hsf : ∀ f ∈ files, StableFile f)
+    (hqf : ∀ f ∈ files, fileHit p f = false → quietFile (removeEditor p pad 0xFF) f = true)
+    (hrwf : rwFiles (removeEditor p pad 0xFF) files = .ok files1) (hne : files1 ≠ [])
+    (st st' : St) (t' : Tree) (hp : st.pol = 0xFF) (hf : st.ffs3 = false)
+    (ha : asmTreeWith Hooks.none (.bios { b with elems := pre ++ .fv (.mk i buf files1) :: post }) st = .ok (t', st'))
+    (hg : GoodTree t') :
+    removeOp p pad 0xFF (.bios b) = .ok (.bios { b with elems := pre ++ .fv (.mk i buf files1) :: post }) ∧
+    ∃ i', Spec.WF i' ∧ t'.buf = Spec.ser i' ∧ parse Hooks.none t'.buf = .ok (Spec.tree i') ∧
+      avTree (Spec.tree i') =
+        avElems pre ++ (absFiles (files.filter (fun f => !fileHit p f)) :: avFiles files1) ++ avElems post :=
+  remove_e2e_bios p pad b hr hkeep pre post i buf files files1 hdec hq hc hsf hqf hrwf hne st st' t' hp hf ha hg
+
+/-- **one edit, one save, one re-parse — the target anywhere below the top-level volume `v`** (any depth
+    of nesting).  As `edit_saved_tree`, with `ShowsFv v1 P` in place of "the files of `v1` are stable":
+    whenever a save assembles `v1` the lists of the written node satisfy `P`.  `ShowsFv` is built level
+    by level (Uefi/ExactE2ENest.lean): `shows_fv_of_files` for the edited volume (its files are stable),
+    `shows_sec_of_fv` (volume-image section), `shows_file_of_sec` (the file: GUID and type kept, sibling
+    sections stable), `shows_fv_of_file` (the enclosing volume: sibling files stable, keep everything).
+    The re-parsed saved image shows the lists of `pre` as in the input, lists `L` with `P L`, the lists
+    of `post` as in the input. -/
+theorem edit_saved_tree_nested (E : Editor) (hE : EditorOk E) (b : BiosRegion) (hr : Reach (.bios b))
+    (hkeep : keepTree E (.bios b)) (pre post : List BiosElem) (v v1 : Fv)
+    (hdec : b.elems = pre ++ .fv v :: post)
+    (hq : ∀ u, BiosElem.fv u ∈ pre ++ post → quietFv E u = true ∧ StableFv u)
+    (hrw : rwFv E v = .ok v1) (P : List (List AbsFile) → Prop) (hv : ShowsFv v1 P)
+    (st st' : St) (t' : Tree) (hp : st.pol = 0xFF) (hf : st.ffs3 = false)
+    (ha : asmTreeWith Hooks.none (.bios { b with elems := pre ++ .fv v1 :: post }) st = .ok (t', st'))
+    (hg : GoodTree t') :
+    rwTree E (.bios b) = .ok (.bios { b with elems := pre ++ .fv v1 :: post }) ∧
+    ∃ i' L, Spec.WF i' ∧ t'.buf = Spec.ser i' ∧ parse Hooks.none t'.buf = .ok (Spec.tree i') ∧ P L ∧
+      avTree (Spec.tree i') = avElems pre ++ L ++ avElems post :=
+  edit_saved_bios_shows E hE b hr hkeep pre post v v1 hdec hq hrw P hv st st' t' hp hf ha hg
+
+/-- **an edit of a volume nested one level down, end to end** (`edit_saved_tree_nested` with the three
+    levels spelled out; any `EditorOk` editor).  The top-level volume holds, in its file `F` (not a pad
+    file), a volume-image section whose child is the volume `u`; the editor turns the list of `u` into
+    `ufiles1` and fires nowhere else; siblings are stable (parsed nodes are), the files of `ufiles1` are.
+    The re-parsed saved image shows: the lists of `pre` as in the input; the enclosing volume's list with
+    the same files in the same order — `F` with its GUID and type (`A`; its body is rebuilt around the
+    new volume), all others with GUID, type, attributes, body —; the lists nested in front; **the edited
+    list of `u`** and the lists nested in its files; the lists nested behind; the lists of `post`. -/
+theorem nested_edit_end_to_end (E : Editor) (hE : EditorOk E) (b : BiosRegion) (hr : Reach (.bios b))
+    (hkeep : keepTree E (.bios b)) (pre post : List BiosElem)
+    (i : FvInfo) (buf : Bytes) (fpre fpost : List File) (fi : FileInfo) (fb : Bytes)
+    (spre spost : List Section) (si : SecInfo) (sb : Bytes) (u : Fv) (ui : FvInfo) (ub : Bytes) (ufiles1 : List File)
+    (hdec : b.elems = pre ++ .fv (.mk i buf (fpre ++ .mk fi fb (spre ++ .mk si sb [.fv u] :: spost) :: fpost)) :: post)
+    (hq : ∀ w, BiosElem.fv w ∈ pre ++ post → quietFv E w = true ∧ StableFv w)
+    (hEv : E.fv (.mk i buf (fpre ++ .mk fi fb (spre ++ .mk si sb [.fv u] :: spost) :: fpost)) = none)
+    (hEf : E.file (.mk fi fb (spre ++ .mk si sb [.fv u] :: spost)) = none)
+    (hfpre : quietFiles E fpre = true) (hfpost : quietFiles E fpost = true)
+    (hspre : quietSections E spre = true) (hspost : quietSections E spost = true)
+    (hu : rwFv E u = .ok (.mk ui ub ufiles1))
+    (hc : CanonFv (.mk i buf (fpre ++ .mk fi fb (spre ++ .mk si sb [.fv u] :: spost) :: fpost)))
+    (hnp : fi.type ≠ 0xF0)
+    (hsfpre : ∀ f ∈ fpre, StableFile f) (hsfpost : ∀ f ∈ fpost, StableFile f)
+    (hsspre : ∀ s ∈ spre, StableSec s) (hsspost : ∀ s ∈ spost, StableSec s)
+    (hsu : ∀ f ∈ ufiles1, StableFile f)
+    (st st' : St) (t' : Tree) (hp : st.pol = 0xFF) (hf : st.ffs3 = false)
+    (ha : asmTreeWith Hooks.none (.bios { b with elems := (pre ++ BiosElem.fv (.mk i buf
+      (fpre ++ .mk fi fb (spre ++ .mk si sb [.fv (.mk ui ub ufiles1)] :: spost) :: fpost)) :: post) }) st =
+        .ok (t', st'))
+    (hg : GoodTree t') :
+    rwTree E (.bios b) = .ok (.bios { b with elems := (pre ++ BiosElem.fv (.mk i buf
+      (fpre ++ .mk fi fb (spre ++ .mk si sb [.fv (.mk ui ub ufiles1)] :: spost) :: fpost)) :: post) }) ∧
+    ∃ (i' : Spec.Img) (A : AbsFile), Spec.WF i' ∧ t'.buf = Spec.ser i' ∧ parse Hooks.none t'.buf = .ok (Spec.tree i') ∧
+      A.guid = fi.guid ∧ A.type = fi.type ∧
+      avTree (Spec.tree i') =
+        avElems pre ++
+          ((absFiles fpre ++ A :: absFiles fpost) ::
+            (avFiles fpre ++ (avSections spre ++ (absFiles ufiles1 :: avFiles ufiles1) ++ avSections spost) ++
+              avFiles fpost)) ++
+          avElems post :=
+  nested_edit_saved_bios E hE b hr hkeep pre post i buf fpre fpost fi fb spre spost si sb u ui ub ufiles1 hdec hq hEv hEf
+    hfpre hfpost hspre hspost hu hc hnp hsfpre hsfpost hsspre hsspost hsu st st' t' hp hf ha hg
+
+/-- **one edit, one save, one re-parse — flash image with descriptor** (one BIOS region; the other
+    regions — ME, table regions, gaps: `nonBios` — hold no volumes; any `EditorOk` editor; target at any
+    depth below the top-level volume `v` of the BIOS region).  Assemble re-points the regions to the
+    descriptor's table and sorts them; the statement is that of `edit_saved_tree_nested`: the re-parsed
+    saved image shows the lists of `pre` as in the input, lists `L` with `P L` (for a top-level target,
+    `P` = "is the edited list followed by the lists nested in its files": `shows_fv_of_files`), the lists
+    of `post` as in the input. -/
+theorem edit_saved_flash (E : Editor) (hE : EditorOk E) (f : Flash) (hr : Reach (.flash f))
+    (hkeep : keepTree E (.flash f)) (rpre rpost : List Region) (b : BiosRegion)
+    (hregs : f.regions = rpre ++ .bios b :: rpost)
+    (hrpre : ∀ r ∈ rpre, nonBios r) (hrpost : ∀ r ∈ rpost, nonBios r)
+    (pre post : List BiosElem) (v v1 : Fv) (hdec : b.elems = pre ++ .fv v :: post)
+    (hq : ∀ u, BiosElem.fv u ∈ pre ++ post → quietFv E u = true ∧ StableFv u)
+    (hrw : rwFv E v = .ok v1) (P : List (List AbsFile) → Prop) (hv : ShowsFv v1 P)
+    (st st' : St) (t' : Tree) (hp : st.pol = 0xFF) (hf : st.ffs3 = false)
+    (ha : asmTreeWith Hooks.none
+      (.flash { f with regions := rpre ++ .bios { b with elems := pre ++ .fv v1 :: post } :: rpost }) st = .ok (t', st'))
+    (hg : GoodTree t') :
+    rwTree E (.flash f) =
+      .ok (.flash { f with regions := rpre ++ .bios { b with elems := pre ++ .fv v1 :: post } :: rpost }) ∧
+    ∃ i' L, Spec.WF i' ∧ t'.buf = Spec.ser i' ∧ parse Hooks.none t'.buf = .ok (Spec.tree i') ∧ P L ∧
+      avTree (Spec.tree i') = avElems pre ++ L ++ avElems post :=
+  edit_saved_flash_shows E hE f hr hkeep rpre rpost b hregs hrpre hrpost pre post v v1 hdec hq hrw P hv st st' t' hp hf
+    ha hg
+
+/-- **ReplacePE32, end to end at the tree** (image without flash descriptor).  The selector's match is the
+    sectioned file `F = (fi, fb, secs)` of the top-level volume `(i, buf, fpre ++ F :: fpost)`; nothing
+    matches elsewhere.  `rwTree` yields the tree with `pe32File body F` in its place, and the saved,
+    re-parsed image shows: the lists of `pre` as in the input; that volume's list with the same files in
+    the same order — `F` with its GUID and type (`A`), all others with GUID, type, attributes, body —; the
+    lists of all volumes nested in its files, those below `F` included, as in the input; the lists of
+    `post` as in the input.  What the sections of `F` become is `replace_pe32_saved`. -/
+theorem replace_pe32_end_to_end (p : Pred) (body : Bytes) (hb : body.length + 8 < 0xFFFFFFFF) (b : BiosRegion)
+    (hr : Reach (.bios b)) (hkeep : keepTree (pe32Editor p body) (.bios b)) (pre post : List BiosElem)
+    (i : FvInfo) (buf : Bytes) (fpre fpost : List File) (fi : FileInfo) (fb : Bytes) (secs : List Section) (F1 : File)
+    (hdec : b.elems = pre ++ .fv (.mk i buf (fpre ++ .mk fi fb secs :: fpost)) :: post)
+    (hq : ∀ u, BiosElem.fv u ∈ pre ++ post → quietFv (pe32Editor p body) u = true ∧ StableFv u)
+    (hhit : fileHit p (.mk fi fb secs) = true) (hpe : pe32File body (.mk fi fb secs) = .ok F1)
+    (hfpre : quietFiles (pe32Editor p body) fpre = true) (hfpost : quietFiles (pe32Editor p body) fpost = true)
+    (hc : CanonFv (.mk i buf (fpre ++ .mk fi fb secs :: fpost))) (hne : secs ≠ []) (hnp : fi.type ≠ 0xF0)
+    (hsfpre : ∀ f ∈ fpre, StableFile f) (hsfpost : ∀ f ∈ fpost, StableFile f) (hss : ∀ s ∈ secs, StableSec s)
+    (st st' : St) (t' : Tree) (hp : st.pol = 0xFF) (hf : st.ffs3 = false)
+    (ha : asmTreeWith Hooks.none (.bios { b with elems := pre ++ .fv (.mk i buf (fpre ++ F1 :: fpost)) :: post }) st =
+      .ok (t', st'))
+    (hg : GoodTree t') :
+    rwTree (pe32Editor p body) (.bios b) =
+      .ok (.bios { b with elems := pre ++ .fv (.mk i buf (fpre ++ F1 :: fpost)) :: post }) ∧
+    ∃ (i' : Spec.Img) (A : AbsFile), Spec.WF i' ∧ t'.buf = Spec.ser i' ∧
+      parse Hooks.none t'.buf = .ok (Spec.tree i') ∧ A.guid = fi.guid ∧ A.type = fi.type ∧
+      avTree (Spec.tree i') =
+        avElems pre ++
+          ((absFiles fpre ++ A :: absFiles fpost) ::
+            (avFiles fpre ++ avFile (.mk fi fb secs) ++ avFiles fpost)) ++
+          avElems post :=
+  replace_pe32_e2e_bios p body hb b hr hkeep pre post i buf fpre fpost fi fb secs F1 hdec hq hhit hpe hfpre hfpost hc hne
+    hnp hsfpre hsfpost hss st st' t' hp hf ha hg
+
+/-- **a save of any reachable tree, re-parsed** (image without flash descriptor; any number of edits in any
+    number of volumes since the last save — no editor appears in the statement).  If every top-level
+    volume `u` of the tree as it stands shows `Ps u` (`StableFv.shows` for untouched volumes, the
+    composition lemmas `shows_fv_of_files` / `shows_fv_of_file` … for edited ones), then the saved bytes are
+    a well-formed image of the grammar, fiano's reader parses them, and the lists it reports split volume
+    by volume (`ElemsAv`) into lists that satisfy `Ps u`. -/
+theorem saved_tree_reparsed (b : BiosRegion) (hr : Reach (.bios b)) (Ps : Fv → List (List AbsFile) → Prop)
+    (hs : ∀ u, BiosElem.fv u ∈ b.elems → ShowsFv u (Ps u))
+    (st st' : St) (t' : Tree) (hp : st.pol = 0xFF) (hf : st.ffs3 = false)
+    (ha : asmTreeWith Hooks.none (.bios b) st = .ok (t', st')) (hg : GoodTree t') :
+    ∃ i', Spec.WF i' ∧ t'.buf = Spec.ser i' ∧ parse Hooks.none t'.buf = .ok (Spec.tree i') ∧
+      ElemsAv Ps b.elems (avTree (Spec.tree i')) :=
+  saved_tree_shows b hr Ps hs st st' t' hp hf ha hg
 
 /-! ## C — the bytes -/
 
@@ -313,6 +570,33 @@ theorem remove_pad_saved (i : FvInfo) (buf : Bytes) (pre post : List File) (x px
         Spec.alignUp (layEndM (placedM pre) i.dataOffset) 8 + x.buf.length ≤ j) →
       out2[j]? = out1[j]? :=
   remove_pad_bytes i buf pre post x px st i1 i2 out1 out2 s1 s2 h1 h2 hp hnr hb1 hsize hal hsat
+
+/-- **which blobs `NewFile` accepts, and the node it builds** (any hooks): the header decodes
+    (`fileHeader`: at least 24 bytes, not erased, the 3-byte size — or for FFFFFF the 8-byte extended
+    size, however small — within the blob), the node's buffer is the blob's prefix of that size, its
+    GUID / type / attributes are the header's, and a file of a type whose sections are not parsed has no
+    section nodes (so Assemble writes it as it is, `blob_leaf_verbatim`) -/
+theorem blob_node (h : Hooks) (fuel : Nat) (blob : Bytes) (st st' : St) (f : File)
+    (hp : parseFile h fuel blob st = .ok (some f, st')) :
+    ∃ i0, fileHeader blob = .ok (some i0) ∧ f.buf = blob.take i0.extSize ∧ i0.extSize ≤ blob.length ∧
+      24 ≤ blob.length ∧ f.info.extSize = i0.extSize ∧ f.info.attrs = i0.attrs ∧ f.info.type = i0.type ∧
+      f.info.guid = i0.guid ∧ (supportedFile i0.type = false → f.secs = []) :=
+  parseFile_node h fuel blob st st' f hp
+
+/-- **the inserted file's bytes, verbatim, at the computed offset** (any nodes — no grammar, no
+    invariant, no `CanonFile`): in a re-laid top-level volume whose file list is `pre ++ x :: post`, the
+    assembled buffer of `x` is found byte for byte at `fileStart (end of pre) x.attrs`.  Together with
+    `frame_inside_volume` (the files before `x` keep offset and bytes) and `frame_bytes` /
+    `frame_bytes_flash` (everything outside the target volume) this is the frame theorem for an
+    arbitrary blob accepted by `NewFile`. -/
+theorem inserted_bytes_verbatim (i : FvInfo) (buf : Bytes) (pre post : List File) (x : File) (st : St)
+    (i' : FvInfo) (out : Bytes) (st' : St)
+    (h : relayoutFv i buf (pre ++ x :: post) st = .ok (i', out, st')) (hp : st.pol = 0xFF)
+    (hnr : i.resizable = false) (hb : layEndM (placedM (pre ++ x :: post)) i.dataOffset < 2 ^ 62)
+    (hdo : 60 ≤ i.dataOffset) (hbl : i.dataOffset ≤ buf.length) (hne : ∀ f ∈ pre, f.buf.length ≠ 0)
+    (j : Nat) (hj : j < x.buf.length) :
+    out[fileStart (layEndM (placedM pre) i.dataOffset) x.info.attrs + j]? = x.buf[j]? :=
+  insert_blob_verbatim i buf pre post x st i' out st' h hp hnr hb hdo hbl hne j hj
 
 /-! ## non-vacuity -/
 
@@ -391,10 +675,41 @@ example : ∃ pf, mkPadFile 0xFF 40 = .ok pf ∧ CanonFile pf :=
 
 example : Settled fileA := settled_leaf _ _ rfl
 
+/-- a blob outside the grammar that `NewFile` accepts: RAW file, Size = FFFFFF with the small extended
+    size 40 and the large-file attribute clear, followed by bytes that do not belong to it -/
+def oddBlob : Bytes :=
+  List.replicate 16 7 ++ [0, 0, 1, 0, 0xFF, 0xFF, 0xFF, 0xF8] ++ [40, 0, 0, 0, 0, 0, 0, 0] ++ List.replicate 8 0x55 ++ [1, 2, 3]
+
+example : (match parseFile Hooks.none 2 oddBlob {} with
+    | .ok (some f, _) => f.buf == oddBlob.take 40 && f.secs.isEmpty && f.info.dataOffset == 32 && f.info.attrs == 0
+    | _ => false) = true := by decide +kernel
+
+/-- the hypotheses of the tree-level end-to-end theorems: a leaf file is stable, the volume of the
+    sample is, every top-level volume and every file of the parsed sample image is -/
+example : StableFile fileA := stable_leaf _ _ rfl
+example : StableFv (Spec.treeFv sampleFv 0 false) := stable_treeFv sampleFv sampleFv_wf sampleFv_tidy 0 false
+example : ∀ u, BiosElem.fv u ∈ (Spec.treeBios ⟨[([], sampleFv)], [1, 2, 3]⟩ none).elems → StableFv u :=
+  stable_treeBios _ sample_wf sample_tidy
+example : StableSec (Spec.treeSec (.ui [0x41, 0x1F600]) 0) := stable_treeSec _ (by decide) (by decide) 0
+example : ShowsFv (Spec.treeFv sampleFv 0 false) (fun L => L = avFv (Spec.treeFv sampleFv 0 false)) :=
+  (stable_treeFv sampleFv sampleFv_wf sampleFv_tidy 0 false).shows
+example : ElemsAv (fun v L => L = avFv v) [.pad [0] 0, .fv (Spec.treeFv sampleFv 1 false)]
+    (avFv (Spec.treeFv sampleFv 1 false) ++ []) := ⟨_, _, rfl, rfl, rfl⟩
+example : nonBios (.me [1, 2] default) ∧ nonBios (.raw [] default (-1)) := ⟨trivial, trivial⟩
+example : ∃ pf, mkPadFile 0xFF 40 = .ok pf ∧ StableFile pf :=
+  match h : mkPadFile 0xFF 40 with
+  | .ok pf => ⟨pf, rfl, stable_padFile 0xFF 40 pf h⟩
+  | .error _ => by simp [mkPadFile] at h
+
 /-- `GoodFv`: a written volume of 100 bytes with one 28-byte file and 40 free bytes -/
 example : GoodFv (.mk { (default : FvInfo) with freeSpace := 40 } (List.replicate 100 0) [fileA]) := by
   unfold GoodFv GoodFiles GoodFile GoodSecs B
-  refine ⟨by decide, by decide, fun _ => ⟨by decide, fun h => by cases h⟩, ⟨by decide, trivial⟩, trivial⟩
+  refine ⟨by decide, by decide, ⟨by decide, trivial⟩, trivial⟩
+
+/-- `GoodFv` no longer excludes a volume left with exactly 24 free bytes (round 3) -/
+example : GoodFv (.mk { (default : FvInfo) with freeSpace := 24 } (List.replicate 100 0) [fileA]) := by
+  unfold GoodFv GoodFiles GoodFile GoodSecs B
+  refine ⟨by decide, by decide, ⟨by decide, trivial⟩, trivial⟩
 
 /-- `keepFiles`: removing `fileA` from `[fileB, fileA]` does not descend into a volume -/
 example : keepFiles (removeEditor byGuid1 false 0xFF) [fileB, fileA] := by
